@@ -14,7 +14,7 @@ from simkit import cleanroom
 from flodym import (Dimension, DimensionSet, FlodymArray, StockArray, Parameter, SimpleFlowDrivenStock, InflowDrivenDSM,
                     StockDrivenDSM, MFASystem, MFADefinition, DimensionDefinition, FlowDefinition, StockDefinition,
                     ParameterDefinition, make_processes, make_empty_flows, make_empty_stocks)
-from flodym.lifetime_models import (FixedLifetime, NormalLifetime, FoldedNormalLifetime, LogNormalLifetime, WeibullLifetime)
+from flodym.lifetime_models import (LifetimeModel, FixedLifetime, NormalLifetime, FoldedNormalLifetime, LogNormalLifetime, WeibullLifetime)
 
 LT = {"fixed": FixedLifetime, "normal": NormalLifetime, "folded": FoldedNormalLifetime, "lognormal": LogNormalLifetime,
       "weibull": WeibullLifetime}
@@ -300,6 +300,7 @@ class StockSim(Engine):
             st.stocks = list(st.system.stocks.values())
             st.lts = [x.lifetime_model for x in st.stocks]
             return
+        handles = []
         for k, s in enumerate(world["stocks"]):
             dims_k = st.dims
             if s.get("grid2"):
@@ -309,7 +310,8 @@ class StockSim(Engine):
             kw = {"dims": dims_k, "name": f"s{k}", "time_letter": "t"}
             if s["cls"] != "simple":
                 if s["share"] is not None and not isinstance(st.stocks[s["share"]], SimpleFlowDrivenStock):
-                    kw["lifetime_model"] = st.stocks[s["share"]].lifetime_model
+                    # the caller's own handle: the object the other stock was given (or built itself from a class)
+                    kw["lifetime_model"] = handles[s["share"]] if handles[s["share"]] is not None else st.stocks[s["share"]].lifetime_model
                 elif s["lt_as"] == "class":
                     kw["lifetime_model"] = LT[s["lt"]]
                 else:
@@ -321,7 +323,9 @@ class StockSim(Engine):
                 if s["cls"] == "stockdriven":
                     kw["solver"] = s["solver"]
             st.stocks.append(CLS[s["cls"]](**kw))
-        st.lts = [getattr(x, "lifetime_model", None) for x in st.stocks]
+            handles.append(kw["lifetime_model"] if isinstance(kw.get("lifetime_model"), LifetimeModel) else None)
+        # parameters are set and read through the handle the caller kept, where there is one (flodym keeps the instance it is given)
+        st.lts = [h if h is not None else getattr(x, "lifetime_model", None) for h, x in zip(handles, st.stocks)]
 
     def _new_system(self, st, params_from):
         d = st.definition
@@ -361,10 +365,10 @@ class StockSim(Engine):
             return {"stock": stock.stock.values.copy()}
         return {"inflow": stock.inflow.values.copy(), "outflow": stock.outflow.values.copy()}
 
-    def _fresh(self, stock, drivers):
+    def _fresh(self, stock, drivers, lt=None):
         kw = {"dims": stock.dims, "name": "fresh", "time_letter": stock.time_letter}
         if not isinstance(stock, SimpleFlowDrivenStock):
-            lt = stock.lifetime_model
+            lt = lt if lt is not None else stock.lifetime_model
             prms = {k: (None if v is None else np.array(v, copy=True)) for k, v in lt.prms.items()}
             kw["lifetime_model"] = type(lt)(dims=stock.dims, time_letter=lt.time_letter, inflow_at=lt.inflow_at,
                                             n_pts_per_interval=lt.n_pts_per_interval, **prms)
@@ -384,13 +388,13 @@ class StockSim(Engine):
                     diff = float(np.nanmax(np.abs(a - b))) if a.shape == b.shape else None
                 raise Violation(clause, f"{what}: '{k}' differs (max abs difference {diff})", cls=clause, array=k)
 
-    def _judge_compute(self, st, stock, drivers, what):
+    def _judge_compute(self, st, stock, drivers, what, lt=None):
         """after a compute() that returned: results must equal those of a fresh object with the same inputs"""
         got = self._results(stock)
         try:
             with np.errstate(all="ignore"), warnings.catch_warnings():
                 warnings.simplefilter("ignore")
-                fresh = self._fresh(stock, drivers)
+                fresh = self._fresh(stock, drivers, lt)
                 fresh.compute()
         except Exception as e:  # noqa
             st.clauses["recompute==fresh"] = st.clauses.get("recompute==fresh", 0) + 1
@@ -398,12 +402,12 @@ class StockSim(Engine):
                                                 f"inputs raises {exc_class(e)}", cls="recompute==fresh", array="raises")
         self._compare(st, got, self._results(fresh), "recompute==fresh", what)
         if getattr(st, "cleanroom", False) and cleanroom.available() and os.environ.get("VERIF_IN_CLEAN_CHILD"):
-            self._judge_cleanroom(st, stock, drivers, got, what)
+            self._judge_cleanroom(st, stock, drivers, got, what, lt)
 
-    def _judge_cleanroom(self, st, stock, drivers, got, what):
+    def _judge_cleanroom(self, st, stock, drivers, got, what, lt=None):
         """the same inputs computed in a pristine process: exposes state leaking through module / class level caches"""
         cls = [k for k, c in CLS.items() if type(stock) is c][0]
-        lt = getattr(stock, "lifetime_model", None)
+        lt = lt if lt is not None else getattr(stock, "lifetime_model", None)
         payload = {"dims": [(d.name, d.letter, list(d.items), None if d.dtype is None else d.dtype.__name__) for d in stock.dims],
                    "cls": cls, "time_letter": stock.time_letter, "drivers": {k: v.copy() for k, v in drivers.items()},
                    "lt": None, "solver": getattr(stock, "solver", None)}
@@ -548,7 +552,7 @@ class StockSim(Engine):
         if kind == "set_prms":
             if spec["cls"] == "simple":
                 return "skip"
-            lt = stock.lifetime_model
+            lt = st.lts[k]
             ltname = [nme for nme, c in LT.items() if type(lt) is c][0]
             kw = self._prm_kwargs(st, ltname, op["specs"], op.get("bad"))
             if op.get("nudge") and all(v is not None for v in lt.prms.values()):
@@ -565,7 +569,7 @@ class StockSim(Engine):
         if kind == "read":
             if spec["cls"] == "simple":
                 return "skip"
-            lt = stock.lifetime_model
+            lt = st.lts[k]
             out = self._call(st, op, n, (lambda: lt.sf) if op["what"] == "sf" else (lambda: lt.pdf))
             if out.startswith("raise"):
                 self._probe(st, "read_table_failed")
@@ -577,7 +581,7 @@ class StockSim(Engine):
             out = self._call(st, op, n, lambda: stock.compute())
             if out == "ret":
                 self._note(st, k, "compute")
-                self._judge_compute(st, stock, drivers, f"{type(stock).__name__}.compute() at step {n}")
+                self._judge_compute(st, stock, drivers, f"{type(stock).__name__}.compute() at step {n}", st.lts[k])
                 if op.get("twice"):
                     first = self._results(stock)
                     out2 = self._call(st, {}, n, lambda: stock.compute())
